@@ -178,7 +178,11 @@ func (g *verifGen) batch(codec CompressionCodec) *RecordBatch {
 		ProducerID: int64(g.n(100)), ProducerEpoch: int16(g.n(5)), FirstSequence: int32(g.n(20)),
 		IsTransactional: g.n(4) == 0, LogAppendTime: g.n(4) == 0,
 	}
-	for i := 1 + g.n(3); i > 0; i-- {
+	nrec := 1 + g.n(3)
+	if g.rich {
+		nrec = 3 // siblings: a record length can be made to land on another record's boundary
+	}
+	for i := nrec; i > 0; i-- {
 		b.Records = append(b.Records, g.record())
 	}
 	return b
@@ -199,7 +203,11 @@ func (g *verifGen) message(version int8) *Message {
 func (g *verifGen) msgSet(codec CompressionCodec) (*MessageSet, error) {
 	ver := int8(g.n(2))
 	inner := &MessageSet{}
-	for i := 1 + g.n(3); i > 0; i-- {
+	nmsg := 1 + g.n(3)
+	if g.rich {
+		nmsg = 3
+	}
+	for i := nmsg; i > 0; i-- {
 		inner.Messages = append(inner.Messages, &MessageBlock{Offset: int64(g.n(100)), Msg: g.message(ver)})
 	}
 	if codec == CompressionNone {
@@ -228,6 +236,9 @@ func (g *verifGen) fetch(version int16, codec CompressionCodec) (*FetchResponse,
 				blk.AbortedTransactions = []*AbortedTransaction{{ProducerID: int64(g.n(9)), FirstOffset: int64(g.n(99))}}
 			}
 			nsets := 1 + g.n(2)
+			if g.rich {
+				nsets = 2
+			}
 			for si := 0; si < nsets; si++ {
 				var rs Records
 				if version < 4 || g.n(5) == 0 {
